@@ -65,6 +65,14 @@ def _local_consts(f):
     return out
 
 
+def _literal_between(fmt, i):
+    """Literal text between replacement field i-1 and field i of a format string contains a blank."""
+    import string as _string
+    parts = list(_string.Formatter().parse(fmt))
+    # parts[k] = (literal before field k, name, spec, conv)
+    return i < len(parts) and parts[i][0] is not None and any(ch.isspace() for ch in parts[i][0])
+
+
 def r191(ctx):
     rid = "R-19.1"
     tree = ctx.tree
@@ -90,6 +98,26 @@ def r191(ctx):
                     wname = it.args[2].id
                 if isinstance(it.args[0], ast.Name):
                     pname = it.args[0].id
+    # a record block (loop over rawdata[<key>]) whose numbers are taken by whitespace tokens: decided by
+    # the writer's format - float fields that follow each other without a literal blank cannot be
+    # recovered by .split() once a value fills its field
+    sep_free = [i for i in range(1, len(fs)) if fs[i][1] and fs[i][1].endswith("f") and fs[i - 1][1] and fs[i - 1][1].endswith("f") and not _literal_between(fmt, i)]
+    tokenised = []
+    for n in walk_local(rd):
+        if isinstance(n, ast.ListComp) and any(isinstance(c, ast.Call) and last_name(c) == "float" for c in ast.walk(n.elt)):
+            it = n.generators[0].iter
+            if isinstance(it, ast.Call) and isinstance(it.func, ast.Attribute) and it.func.attr == "split" and not it.args:
+                for L in loops_of(n):
+                    if isinstance(L, ast.For) and isinstance(L.iter, ast.Subscript) and not isinstance(L.iter.slice, ast.Constant) and "rawdata" in ast.unparse(L.iter.value):
+                        tokenised.append((n, L))
+    for n, L in tokenised:
+        if sep_free:
+            ctx.bad(rid, n, f"g96: the numbers of the `{short(L.iter, 30)}` records are taken by whitespace tokens (`{short(n, 60)}`) although the writer's format {fmt!r} puts the float fields next to each other without a blank: a value that fills its 15-character field (|x| >= 10000, or x <= -1000) is glued to its neighbour and the line written by write_gromos96_file / GROMACS cannot be read back",
+                    construct=f"read_gromos96_file: {short(L.iter, 30)} parsed by .split()")
+        else:
+            ctx.ok(rid, n, f"g96: `{short(L.iter, 30)}` records are tokenised by blanks and the writer separates all float fields by a literal blank")
+    if tokenised and (wname not in lc or pname not in lc):
+        return
     if wname not in lc or pname not in lc:
         raise AnalysisError("R-19.1: the field width / prefix width locals of read_gromos96_file were not found (range(start, stop, step) of the float slices)")
     _len, _pos = lc[wname].value, lc[pname].value
@@ -1173,6 +1201,8 @@ def run(ctx):
 
 
 VARIANTS = [
+    B("c19-g96-coordinates-by-whitespace-tokens", GROMACS, "            pos = [\n                float(line[i : i + _len]) for i in range(_pos, 4 * _len, _len)\n            ]\n", "            pos = [float(i) for i in line[_pos:].split()]\n", "R-19.1", control=True, why="seeded C19_n"),
+    B("c19-g96-reduced-coordinates-by-whitespace-tokens", GROMACS, "            pos = [float(line[i : i + _len]) for i in range(0, 3 * _len, _len)]\n", "            pos = [float(i) for i in line.split()]\n", "R-19.1"),
     B("c19-cp2k-terminator-case-sensitive", CP2K, 'if lstrip[1:].lower().startswith("end"):', 'if strip[0] == "END":', "R-19.17", control=True, why="seeded C19_m"),
     K("c19-keep-cp2k-terminator-upper", CP2K, 'if lstrip[1:].lower().startswith("end"):', 'if lstrip[1:].upper().startswith("END"):'),
     B("c19-lammps-placeholder-substring-test", LAMMPS, "                    if var in spl:", "                    if var in line:", "R-19.16", control=True, why="seeded C19_l"),
